@@ -589,7 +589,10 @@ def gen_plot_case(rng):
     else:
         columns = list(rng.permutation([c for c in rc if c != 'Data'] + ['Data'])[:k])
     has_title = bool(rng.random() < 0.5)
-    return {'k': k, 'fn': fn, 'real': real, 'synth': synth, 'columns': columns, 'title': has_title}
+    def py(fr):
+        return None if fr is None else ([str(c) for c in fr[0]], fr[1])
+    return {'k': k, 'fn': fn, 'real': py(real), 'synth': py(synth), 'columns': None if columns is None else [str(c) for c in columns],
+            'title': has_title}
 
 
 def coq_frame(fr):
@@ -721,7 +724,8 @@ def direct_repro(key, ep, combo, seed):
 
 def model_verdicts(ctx, info):
     expr = 'map (fun e => (fst (fst e), callsum gen_table 24 (snd (fst e)))) gen_entries'
-    out = cases.run_vm_cases(ctx, 'Cases_C20_verdicts', 'From Cop Require Import Model.Alias.\nFrom CopRun Require Import Gen_effects.', [expr])
+    out = cases.run_vm_cases(ctx, 'Cases_C20_verdicts', 'From Cop Require Import Model.Alias.\nFrom CopRun Require Import Gen_effects.', [expr],
+                             hdr='From Coq Require Import List ZArith Bool Arith String.\n{imports}\nImport ListNotations.\n')
     res = {}
     if out and out[0]:
         for m in re.finditer(r'\("([^"]+)",\s*\[([^\]]*)\]\)', out[0]):
@@ -855,7 +859,8 @@ def run(ctx):
     # ---------------- 4. plots: figure traces and the caller's columns list vs Model.Plot
     prng = np.random.default_rng(seed + 2020)
     pcs = [gen_plot_case(prng) for _ in range(60 if quick else 600)]
-    outs = cases.run_vm_cases(ctx, 'Cases_C20_plot', 'From Cop Require Import Model.Plot.', [coq_plot_expr(c) for c in pcs], per_file=50)
+    outs = cases.run_vm_cases(ctx, 'Cases_C20_plot', 'From Cop Require Import Model.Plot.', [coq_plot_expr(c) for c in pcs], per_file=50,
+                              hdr='From Coq Require Import List ZArith Bool Arith.\n{imports}\nImport ListNotations.\n')
     kinds = {}
     for i, (c, o) in enumerate(zip(pcs, outs)):
         model = parse_plot(o)
